@@ -7,12 +7,36 @@ import os
 VERIF = os.path.dirname(os.path.dirname(os.path.abspath(__file__)))
 
 # id -> (level, technique, level text, level note, design ref)
+MC = "model_checking"
 CLAIMED = {
-    "C05": ("model_checking",
-            "TLA+ reference semantics (Ref.tla) evaluated by TLC on generated programs, replayed into the interpreter; Machine.tla refinement checked by TLC",
+    "C02": (MC, "TLC: Machine.tla NoStuck on the program family + Builtins.tla call matrix enumeration; every case replayed into the interpreter, crash = violation",
+            "TLC checks that every step of the explicit-stack machine is defined on the bounded program family and enumerates the built-in call matrix; each call, the 16x16 integer boundary grid and error-injected programs are run by the real interpreter and must end in a value or a Garden-level error",
+            "bounded: the call matrix covers every listed built-in with one representative value per kind; a harness timeout counts as non-termination, not as a crash",
+            "DESIGN.md §6 C02"),
+    "C05": (MC, "TLA+ reference semantics (Ref.tla) evaluated by TLC on generated programs, replayed into the interpreter; Machine.tla refinement checked by TLC",
             "TLC evaluates the big-step reference semantics on every generated core-language program and the real interpreter's stdout, outcome variant and failing line must equal it; bounded (seeded programs), not a proof",
             "trusts Ref.tla's PINNED clauses (evaluation order, closure snapshot) as the language definition; integers below 1e9; programs from tools/gen_prog.py only",
             "DESIGN.md §3.3, §6 C05"),
+    "C06": (MC, "TLC: Machine.tla vs Ref.tla (scope dropped on every exit) on the exhaustive exit matrix; each case replayed into the interpreter",
+            "exhaustive matrix of nesting chains (<=3 quick, <=4 thorough) x exit kind x probe position; TLC checks the machine against the reference on all of them and the interpreter must fail at the probe exactly as the reference does",
+            "probes are plain reads of uniquely named block locals; leaks observable only through closures are left to C05",
+            "DESIGN.md §6 C06"),
+    "C07": (MC, "TLC: Session.tla ResumeRepeatsError (RestoreExact in every error step of Machine.tla); real JSON sessions resumed 3 times for every failing built-in call, construct and generated program",
+            "TLC resumes every error of error-heavy programs (with interrupts interleaved) and checks the same error recurs; the real session must answer :resume x3 with the same message and position for the failing-call matrix, the failing-construct catalogue and generated programs",
+            "message equality is between answers of the same session (wording independent); run/:resume render assertion failures differently and are normalised",
+            "DESIGN.md §6 C07"),
+    "C08": (MC, "TLC: Session.tla with SetInterrupt as a free action (InterruptInvisible); hook H2 interrupts the real session at every tick and at seeded pairs/triples",
+            "TLC places up to 2 interrupts before every tick of every small program and checks the finished evaluation equals the reference; the real session is interrupted at every tick of each generated program, resumed, and must print and answer exactly as uninterrupted",
+            "interrupts are injected through the production AtomicBool by hook H2; network/reader latency is not modelled",
+            "DESIGN.md §6 C08"),
+    "C09": (MC, "TLC: JsonSession.tla (reader/channel/worker, OneResponsePerRequest + liveness); TLC-enumerated and simulated request histories replayed into real sessions",
+            "every history over a 27-symbol request alphabet up to the exhaustive bound (2 quick, 3 thorough) plus simulated histories of length 5-6 is replayed: one admissible answer per request, in order, and the session still answers afterwards",
+            "answer kinds are deliberately loose; `interrupt` requests (answered out of band by the reader) are outside the alphabet",
+            "DESIGN.md §6 C09"),
+    "C10": (MC, "TLC: Session.tla AbortIsClean with Abort enabled in every stopped state; real sessions aborted at depth x blocks x pending values x trailing statements compared with a fresh session",
+            "TLC aborts every stopped state of error-heavy programs and checks the clean-state invariant; 216 real abort situations are probed (names, locals of aborted frames, :resume :stack :fstmts :locals) and must answer exactly like a fresh session with the same definitions and variables",
+            ":fvalues is excluded from the probes (legitimate difference); the failing call is a named function so top-level variables are unaffected by the aborted evaluation",
+            "DESIGN.md §6 C10"),
 }
 
 PENDING = "check not built yet in this round (see DESIGN.md §11 build order); no claim is made"
